@@ -41,6 +41,7 @@ func init() {
 
 func runC05(c *eng.Ctx) {
 	p := c.P
+	c.Rule("GUARD", qT+".SetAcknowledgedSeq", func() { queueAckGuard(c) }) // C05-m21: shared with C06
 	pageFileRemovedOnlyByTruncation(c)
 	getRefusesNothingTheAppendAdmitted(c)
 	everyPageFileIsLoaded(c)
